@@ -376,31 +376,7 @@ func c12Hijack(e *Env) {
 		}
 		e.R.Check(ok && n == 1, rule, q+":release-unless-hijacked", e.fpos(f), "the received message is released exactly at one site, on the !IsHijacked() edge, after the handler returned", "the received message can be recycled although a waiting caller took ownership of it (or before the handler returned)")
 	}
-	// monotone flag: every write of Message.hijacked is Store(true), and only in Hijack
-	var writers []string
-	okFlag := true
-	for _, f := range e.P.SrcFuncs(false) {
-		core.Instrs(f, func(in ssa.Instruction) {
-			c, ok := in.(ssa.CallInstruction)
-			if !ok {
-				return
-			}
-			n := core.CalleeName(c)
-			if !strings.Contains(n, "atomic.Bool.") || strings.HasSuffix(n, ".Load") {
-				return
-			}
-			if _, fl, isF := core.FieldOf(core.Arg(c, 0)); !isF || fl != "hijacked" {
-				return
-			}
-			writers = append(writers, core.FnName(f))
-			b, isB := core.ConstBool(core.Arg(c, 1))
-			if !strings.HasSuffix(n, ".Store") || !isB || !b || core.FnName(f) != "message/pool.Message.Hijack" {
-				okFlag = false
-			}
-		})
-	}
-	sort.Strings(writers)
-	e.R.Check(okFlag && len(writers) == 1, rule, "message/pool.Message.hijacked:monotone", "-", "the hijack flag is written only by Hijack(), only to true", "the hijack flag is also written by "+strings.Join(writers, ", ")+": clearing it lets the receive path recycle a message its new owner still holds")
+	c12HijackMonotoneAs(e, rule)
 }
 
 // c12HijackBeforeSend: R3 – closures that send a *pool.Message parameter on a channel hijack it first.
@@ -682,4 +658,33 @@ func mustRelease(f *ssa.Function, p *ssa.Parameter, rel map[*ssa.Function]map[in
 		},
 		DeferStop: func(d *ssa.Defer) bool { return isRel(d) }}
 	return q.Find() == nil
+}
+
+// c12HijackMonotoneAs: the hijack flag is written only by Hijack(), only to true.
+func c12HijackMonotoneAs(e *Env, rule string) {
+	// monotone flag: every write of Message.hijacked is Store(true), and only in Hijack
+	var writers []string
+	okFlag := true
+	for _, f := range e.P.SrcFuncs(false) {
+		core.Instrs(f, func(in ssa.Instruction) {
+			c, ok := in.(ssa.CallInstruction)
+			if !ok {
+				return
+			}
+			n := core.CalleeName(c)
+			if !strings.Contains(n, "atomic.Bool.") || strings.HasSuffix(n, ".Load") {
+				return
+			}
+			if _, fl, isF := core.FieldOf(core.Arg(c, 0)); !isF || fl != "hijacked" {
+				return
+			}
+			writers = append(writers, core.FnName(f))
+			b, isB := core.ConstBool(core.Arg(c, 1))
+			if !strings.HasSuffix(n, ".Store") || !isB || !b || core.FnName(f) != "message/pool.Message.Hijack" {
+				okFlag = false
+			}
+		})
+	}
+	sort.Strings(writers)
+	e.R.Check(okFlag && len(writers) == 1, rule, "message/pool.Message.hijacked:monotone", "-", "the hijack flag is written only by Hijack(), only to true", "the hijack flag is also written by "+strings.Join(writers, ", ")+": clearing it lets the receive path recycle a message its new owner still holds")
 }
